@@ -15,6 +15,7 @@ mod c08;
 mod c09;
 mod c10;
 mod c14;
+mod c15;
 mod c16;
 mod c17;
 mod c18;
@@ -81,6 +82,7 @@ fn main() {
                 "C09" => c09::run(&mut ctx),
                 "C10" => c10::run(&mut ctx),
                 "C14" => c14::run(&mut ctx),
+                "C15" => c15::run(&mut ctx),
                 "C16" => c16::run(&mut ctx),
                 "C17" => c17::run(&mut ctx),
                 "C18" => c18::run(&mut ctx),
